@@ -597,6 +597,22 @@ func (vc *FuncVC) trCall(e *env, n *ECall) Term {
 		case "arrbytes": // arrbytes(a, n): the byte string held by the first n elements of an array value
 			vc.eng.needFun(vc, "bytes", []string{"(Array Int Int)", "Int", "Int"}, "Int")
 			return T("Int", fmt.Sprintf("(bytes %s 0 %s)", args[0].S, args[1].S))
+		case "lenv": // lenv(v, p): length of container p under container-version v
+			vc.eng.needFun(vc, "m!Len", []string{"Int", "Iface"}, "Int")
+			return app("Int", "m!Len", args[0], args[1])
+		case "atv": // atv(v, p, j): j-th element of container p under container-version v
+			vc.eng.needFun(vc, "m!At", []string{"Int", "Iface", "Int"}, "Iface")
+			return app("Iface", "m!At", args[0], args[1], args[2])
+		case "cast": // cast(x, "*pkg.T"): the same value viewed with Go type T (for field access)
+			if st, ok := n.Args[1].(*EStr); ok {
+				t := vc.eng.typeByName(st.V)
+				if t == nil {
+					return e.fail("unknown type %q", st.V)
+				}
+				r := args[0]
+				r.GoT = t
+				return r
+			}
 		case "fresh": // fresh(r): r was not allocated at function entry
 			al := vc.get(e.old, "alloc", "(Array Int Bool)")
 			return not(app("Bool", "select", al, args[0]))
@@ -713,6 +729,12 @@ func (vc *FuncVC) trCall(e *env, n *ECall) Term {
 				rsort, deps = "Int", []string{"ASHP"}
 			case "At":
 				rsort, deps = "Iface", []string{"ASHP"}
+			case "IsIRI":
+				rsort, deps = "Bool", []string{"ASH"}
+			case "GetIRI":
+				rsort, deps = "Int", []string{"ASH"}
+			case "GetType":
+				rsort, deps = "Iface", []string{"ASH"}
 			default:
 				return e.fail("method %s on untyped term %s", f.Name, recv.S)
 			}
